@@ -1,5 +1,493 @@
 /-
-C18 — property theorems (stub: no theorem stated yet, so no obligation is counted).
+C18 — bam.Merger output is a loss-free, ordered merge re-linked to the merged header.
+PROPERTY THEOREMS ONLY.  The model (Hts.Model.Merger) is the Merger as repaired by fixes/C18-1 … C18-5.
+
+Every statement is for any number of inputs of any lengths, any records, any failure points, any link
+table, and any implementation `H` of the heap that satisfies the laws of `Heap`.
+Reading of the hypotheses: `hm` — NewMerger succeeded and returned `m`; `hr` — calling Read until it
+returns an error gave the records `out` (each with the id of the input it came from) and the error `fin`.
+
+  linksOf linkFn inputs   m.refLinks (none for a single input: the merged header is that input's header)
+  srcsOf inputs           the inputs' record streams with their ids 0, 1, …
+  lessOf custom inputs    m.less as NewMerger chooses it from the sort order (none = concatenation)
+  deliveredBy …           all records the inputs deliver (up to their failure points), in input order,
+                          each tagged with its input id and re-linked to the merged header
 -/
+import Hts.Lemmas.MergerTop
+import Hts.Lemmas.MergerUnique
 namespace Hts.Props.C18
+open Hts.Model.Merger
+
+variable (H : Heap) {custom : Option Less} {linkFn : LinkFn} {inputs : List Input} {m : Merger}
+  {out : List (Nat × Rec)} {fin : Option Term}
+
+/-! ### the merged stream ends: size + 1 calls of Read reach the final error -/
+theorem merge_terminates (hm : newMerger custom linkFn inputs = .ok m) :
+    ∃ out t, m.readAll H = (out, some t) := by
+  cases hl : lessOf custom inputs with
+  | none => exact ⟨_, _, readAll_cat H hm hl⟩
+  | some less =>
+    obtain ⟨n, hn, hr⟩ := readAll_sorted H hm hl
+    obtain ⟨t, ht⟩ := (drainS_perm H (linksOf linkFn inputs) less n (initHeap linkFn inputs) (initErr linkFn inputs) hn).2
+    exact ⟨_, t, by rw [hr, ← ht]⟩
+
+/-! ### loss-free: every record of every input exactly once, and nothing else -/
+
+/-- when merging by a sort order (whatever the inputs do), or when concatenating inputs that all end
+cleanly: the output is a permutation of the records the inputs deliver -/
+theorem merge_perm (hm : newMerger custom linkFn inputs = .ok m) (hr : m.readAll H = (out, fin))
+    (h : (lessOf custom inputs).isSome ∨ ∀ inp, inp ∈ inputs → inp.src.term = .eof) :
+    out.Perm (deliveredBy linkFn inputs) := by
+  cases hl : lessOf custom inputs with
+  | some less =>
+    obtain ⟨n, hn, hr'⟩ := readAll_sorted H hm hl
+    rw [hr'] at hr
+    have := (drainS_perm H (linksOf linkFn inputs) less n (initHeap linkFn inputs) (initErr linkFn inputs) hn).1
+    rw [hr, initHeads_pending] at this
+    exact this
+  | none =>
+    rw [hl] at h
+    have hc : ∀ p, p ∈ srcsOf inputs → p.2.term = .eof := by
+      intro p hp
+      obtain ⟨inp, hi, hs⟩ := srcsOf_term inputs p hp
+      rw [← hs]
+      exact h.resolve_left (by simp) inp hi
+    have := readAll_cat H hm hl
+    rw [hr, catSpec_clean _ _ hc] at this
+    simp only [Prod.mk.injEq] at this
+    rw [this.1]
+    exact List.Perm.refl _
+
+/-- in every mode, also with failing inputs: nothing is returned that no input delivered -/
+theorem merge_nothing_else (hm : newMerger custom linkFn inputs = .ok m) (hr : m.readAll H = (out, fin)) :
+    ∀ p, p ∈ out → p ∈ deliveredBy linkFn inputs := by
+  cases hl : lessOf custom inputs with
+  | some less =>
+    intro p hp
+    exact (merge_perm H hm hr (by simp [hl])).mem_iff.1 hp
+  | none =>
+    have := readAll_cat H hm hl
+    rw [hr] at this
+    simp only [Prod.mk.injEq] at this
+    intro p hp
+    rw [this.1] at hp
+    exact (catSpec_prefix _ _).subset hp
+
+/-! ### concatenation mode (sort order unsorted, or unknown with a nil less) -/
+
+/-- the output is the inputs one after the other -/
+theorem merge_concatenates (hm : newMerger custom linkFn inputs = .ok m) (hr : m.readAll H = (out, fin))
+    (hl : lessOf custom inputs = none) (hc : ∀ inp, inp ∈ inputs → inp.src.term = .eof) :
+    out = deliveredBy linkFn inputs ∧ fin = some .eof := by
+  have hc' : ∀ p, p ∈ srcsOf inputs → p.2.term = .eof := by
+    intro p hp
+    obtain ⟨inp, hi, hs⟩ := srcsOf_term inputs p hp
+    rw [← hs]; exact hc inp hi
+  have := readAll_cat H hm hl
+  rw [hr, catSpec_clean _ _ hc'] at this
+  simp only [Prod.mk.injEq] at this
+  exact ⟨this.1, this.2⟩
+
+/-- with a failing input the output is an initial part of that concatenation -/
+theorem merge_concatenation_prefix (hm : newMerger custom linkFn inputs = .ok m) (hr : m.readAll H = (out, fin))
+    (hl : lessOf custom inputs = none) : out <+: deliveredBy linkFn inputs := by
+  have := readAll_cat H hm hl
+  rw [hr] at this
+  simp only [Prod.mk.injEq] at this
+  rw [this.1]
+  exact catSpec_prefix _ _
+
+/-- precisely: concatenation stops at the first failing input — the output is everything of the inputs in
+front of it followed by what it delivers, and the error returned is its error -/
+theorem merge_concatenation_stops_at_first_error (hm : newMerger custom linkFn inputs = .ok m)
+    (hr : m.readAll H = (out, fin)) (hl : lessOf custom inputs = none) (e : Nat) (hf : fin = some (.err e)) :
+    ∃ pre p post, srcsOf inputs = pre ++ p :: post ∧ (∀ q, q ∈ pre → q.2.term = .eof) ∧ p.2.term = .err e ∧
+      out = delivered (linksOf linkFn inputs) (pre ++ [p]) := by
+  have hc := readAll_cat H hm hl
+  rw [hr, hf] at hc
+  simp only [Prod.mk.injEq] at hc
+  obtain ⟨pre, p, post, h1, h2, h3, h4⟩ := catSpec_split _ _ e (Option.some.inj hc.2).symm
+  exact ⟨pre, p, post, h1, h2, h3, by rw [hc.1, h4]⟩
+
+/-! ### order -/
+
+/-- if `less` is a strict weak order and every input (re-linked) is sorted by it, the output is sorted by
+`less` with ties between inputs resolved by input id — the order of the heap -/
+theorem merge_sorted_ties {less : Less} (hm : newMerger custom linkFn inputs = .ok m) (hr : m.readAll H = (out, fin))
+    (hl : lessOf custom inputs = some less) (sw : StrictWeak less)
+    (hs : ∀ i s, (i, s) ∈ srcsOf inputs → SortedBy less (s.rest.map (relink (linksOf linkFn inputs) i))) :
+    SortedBy (pairLess less) out := by
+  obtain ⟨n, hn, hr'⟩ := readAll_sorted H hm hl
+  rw [hr'] at hr
+  have := drainS_sorted H (linksOf linkFn inputs) less sw n (initHeap linkFn inputs) (initErr linkFn inputs) hn ?_
+  · rw [hr] at this; exact this
+  · intro y hy
+    obtain ⟨s, hmem, hp, _, _⟩ := initHeads_mem _ _ y hy
+    rw [hp]
+    have := hs y.id s hmem
+    unfold SortedBy tagged at *
+    rw [List.pairwise_map] at this ⊢
+    exact this.imp fun h => by rw [pairLess_same_id]; exact h
+
+theorem merge_sorted {less : Less} (hm : newMerger custom linkFn inputs = .ok m) (hr : m.readAll H = (out, fin))
+    (hl : lessOf custom inputs = some less) (sw : StrictWeak less)
+    (hs : ∀ i s, (i, s) ∈ srcsOf inputs → SortedBy less (s.rest.map (relink (linksOf linkFn inputs) i))) :
+    SortedBy less (out.map (·.2)) := by
+  have := merge_sorted_ties H hm hr hl sw hs
+  unfold SortedBy at *
+  rw [List.pairwise_map]
+  exact this.imp fun h => pairLess_false_imp less _ _ h
+
+/-- the relative order of the records of one input is preserved: the records of input `i` in the
+output are an initial part of what input `i` delivers, and all of it when merging by a sort order or
+when the merged stream ended with io.EOF -/
+theorem merge_stable_per_input (hm : newMerger custom linkFn inputs = .ok m) (hr : m.readAll H = (out, fin))
+    (i : Nat) (s : Src) (hi : (i, s) ∈ srcsOf inputs) :
+    out.filter (fun p => p.1 == i) <+: tagged (linksOf linkFn inputs) i s.rest ∧
+    ((lessOf custom inputs).isSome ∨ fin = some .eof →
+      out.filter (fun p => p.1 == i) = tagged (linksOf linkFn inputs) i s.rest) := by
+  have hfd := filter_delivered (linksOf linkFn inputs) (srcsOf inputs) (srcsOf_nodup inputs) i s hi
+  cases hl : lessOf custom inputs with
+  | some less =>
+    suffices h : out.filter (fun p => p.1 == i) = tagged (linksOf linkFn inputs) i s.rest from
+      ⟨h ▸ List.prefix_refl _, fun _ => h⟩
+    obtain ⟨n, hn, hr'⟩ := readAll_sorted H hm hl
+    by_cases hne : s.rest = []
+    · have hp := (merge_perm H hm hr (by simp [hl])).filter (fun p => p.1 == i)
+      unfold deliveredBy at hp
+      rw [hfd] at hp
+      rw [hne] at hp ⊢
+      exact hp.eq_nil
+    · obtain ⟨y, hy, hid, hpend, _⟩ := initHeads_has (linksOf linkFn inputs) _ i s hi hne
+      have hnd := (initHeads_ids (linksOf linkFn inputs) (srcsOf inputs)).nodup (srcsOf_nodup inputs)
+      have := drainS_stable H (linksOf linkFn inputs) less n (initHeap linkFn inputs) (initErr linkFn inputs) hn hnd y hy
+      rw [← hr', hr, hid, hpend] at this
+      exact this
+  | none =>
+    have hc := readAll_cat H hm hl
+    rw [hr] at hc
+    simp only [Prod.mk.injEq] at hc
+    refine ⟨?_, ?_⟩
+    · rw [← hfd, hc.1]
+      exact (catSpec_prefix _ _).filter _
+    · intro h
+      have hf : fin = some .eof := h.resolve_left (by simp)
+      rw [hf] at hc
+      have hclean := catSpec_eof _ _ (Option.some.inj hc.2).symm
+      rw [hc.1, catSpec_clean _ _ hclean]
+      exact hfd
+
+/-! ### how the merged stream ends -/
+
+/-- the error that ends the merged stream, when it is not io.EOF, is the read error of an input -/
+theorem merge_error_is_an_inputs (hm : newMerger custom linkFn inputs = .ok m) (hr : m.readAll H = (out, fin))
+    (e : Nat) (hf : fin = some (.err e)) : ∃ inp, inp ∈ inputs ∧ inp.src.term = .err e := by
+  cases hl : lessOf custom inputs with
+  | some less =>
+    obtain ⟨n, hn, hr'⟩ := readAll_sorted H hm hl
+    rw [hr'] at hr
+    have h2 : (drainS H (linksOf linkFn inputs) less n (initHeap linkFn inputs) (initErr linkFn inputs)).2 = some (.err e) := by rw [hr]; exact hf
+    rcases drainS_fin_err H (linksOf linkFn inputs) less n (initHeap linkFn inputs) (initErr linkFn inputs) e hn h2 with he | ⟨y, hy, hyt⟩
+    · obtain ⟨p, hp, hpt⟩ := initHeads_err_some _ _ e he
+      obtain ⟨inp, hi, hs⟩ := srcsOf_term inputs p hp
+      exact ⟨inp, hi, by rw [hs]; exact hpt⟩
+    · obtain ⟨s, hmem, _, hterm, _⟩ := initHeads_mem _ _ y hy
+      obtain ⟨inp, hi, hs⟩ := srcsOf_term inputs _ hmem
+      exact ⟨inp, hi, by rw [hs]; simp only; rw [← hterm]; exact hyt⟩
+  | none =>
+    have hc := readAll_cat H hm hl
+    rw [hr, hf] at hc
+    simp only [Prod.mk.injEq] at hc
+    obtain ⟨p, hp, hpt⟩ := catSpec_err _ _ e (Option.some.inj hc.2).symm
+    obtain ⟨inp, hi, hs⟩ := srcsOf_term inputs p hp
+    exact ⟨inp, hi, by rw [hs]; exact hpt⟩
+
+/-- io.EOF only after all inputs ended cleanly — and then every record of every input has been returned -/
+theorem merge_eof_only_after_all (hm : newMerger custom linkFn inputs = .ok m) (hr : m.readAll H = (out, fin))
+    (hf : fin = some .eof) :
+    (∀ inp, inp ∈ inputs → inp.src.term = .eof) ∧ out.Perm (deliveredBy linkFn inputs) := by
+  have hall : ∀ inp, inp ∈ inputs → inp.src.term = .eof := by
+    cases hl : lessOf custom inputs with
+    | some less =>
+      obtain ⟨n, hn, hr'⟩ := readAll_sorted H hm hl
+      rw [hr'] at hr
+      have h2 : (drainS H (linksOf linkFn inputs) less n (initHeap linkFn inputs) (initErr linkFn inputs)).2 = some .eof := by rw [hr]; exact hf
+      obtain ⟨he, hlive⟩ := drainS_fin_eof H (linksOf linkFn inputs) less n (initHeap linkFn inputs) (initErr linkFn inputs) hn h2
+      intro inp hinp
+      obtain ⟨i, hi⟩ := srcsOf_of_mem inputs inp hinp
+      by_cases hne : inp.src.rest = []
+      · exact initHeads_err_none _ _ he (i, inp.src) hi hne
+      · obtain ⟨y, hy, _, _, hterm⟩ := initHeads_has (linksOf linkFn inputs) _ i inp.src hi hne
+        rw [← hterm]; exact hlive y hy
+    | none =>
+      have hc := readAll_cat H hm hl
+      rw [hr, hf] at hc
+      simp only [Prod.mk.injEq] at hc
+      have hclean := catSpec_eof _ _ (Option.some.inj hc.2).symm
+      intro inp hinp
+      obtain ⟨i, hi⟩ := srcsOf_of_mem inputs inp hinp
+      exact hclean (i, inp.src) hi
+  exact ⟨hall, merge_perm H hm hr (Or.inr hall)⟩
+
+/-- an input's read error is reported, not dropped: if some input fails, the merged stream ends with the
+read error of a failing input -/
+theorem merge_reports_error (hm : newMerger custom linkFn inputs = .ok m) (hr : m.readAll H = (out, fin))
+    (he : ∃ inp, inp ∈ inputs ∧ inp.src.term ≠ .eof) :
+    ∃ e, fin = some (.err e) ∧ ∃ inp, inp ∈ inputs ∧ inp.src.term = .err e := by
+  obtain ⟨out', t, ht⟩ := merge_terminates H hm
+  rw [hr] at ht
+  simp only [Prod.mk.injEq] at ht
+  cases t with
+  | eof =>
+    obtain ⟨inp, hi, hne⟩ := he
+    exact absurd ((merge_eof_only_after_all H hm hr ht.2).1 inp hi) hne
+  | err e => exact ⟨e, ht.2, merge_error_is_an_inputs H hm hr e ht.2⟩
+
+/-- when merging by a sort order, a failing input does not cost the records that could be read: they
+are all returned before the error -/
+theorem merge_sorted_returns_all_readable (hm : newMerger custom linkFn inputs = .ok m)
+    (hr : m.readAll H = (out, fin)) (hl : (lessOf custom inputs).isSome) :
+    out.Perm (deliveredBy linkFn inputs) := merge_perm H hm hr (Or.inl hl)
+
+/-! ### references: every returned record's Ref and MateRef belong to the merged header, under the name
+they had in the source -/
+
+/-- the laws assumed of the link table (sam.MergeHeaders, property C07): reference `x` of source `i` is
+linked to a reference of the merged header with the same name.  For a single source (`links = none`)
+the merged header is the source header. -/
+def LinksOK (srcRefs : List (List Name)) (merged : List Name) (links : Option LinkFn) : Prop :=
+  ∀ (i : Nat) (names : List Name), srcRefs[i]? = some names → ∀ x : Nat, x < names.length →
+    (match links with | none => x | some l => l i x) < merged.length ∧
+    merged[(match links with | none => x | some l => l i x)]? = names[x]?
+
+/-- what bam.Reader.Read guarantees: Ref and MateRef of a record are references of its own header -/
+def RefsInRange (srcRefs : List (List Name)) (inputs : List Input) : Prop :=
+  ∀ (i : Nat) (inp : Input), inputs[i]? = some inp → ∃ names : List Name, srcRefs[i]? = some names ∧
+    ∀ r : Rec, r ∈ inp.src.rest →
+      (∀ x, r.ref = some x → x < names.length) ∧ (∀ x, r.mate = some x → x < names.length)
+
+/-- reference `o` of an output record is nil if the source record's was, and otherwise a reference of
+the merged header whose name is the name of the source record's reference in the source header -/
+def OwnedAs (names merged : List Name) (src o : Option Nat) : Prop :=
+  match src with
+  | none => o = none
+  | some x => ∃ y, o = some y ∧ y < merged.length ∧ merged[y]? = names[x]?
+
+theorem merge_refs_owned (srcRefs : List (List Name)) (merged : List Name)
+    (hm : newMerger custom linkFn inputs = .ok m) (hr : m.readAll H = (out, fin))
+    (hl : LinksOK srcRefs merged (linksOf linkFn inputs)) (hw : RefsInRange srcRefs inputs) :
+    ∀ p, p ∈ out → ∃ inp names r, inputs[p.1]? = some inp ∧ srcRefs[p.1]? = some names ∧ r ∈ inp.src.rest ∧
+      p.2.name = r.name ∧ p.2.pos = r.pos ∧ p.2.matePos = r.matePos ∧ p.2.uid = r.uid ∧
+      OwnedAs names merged r.ref p.2.ref ∧ OwnedAs names merged r.mate p.2.mate := by
+  intro p hp
+  have hd := merge_nothing_else H hm hr p hp
+  obtain ⟨i, s, r, hmem, hrm, rfl⟩ := (mem_delivered _ _ p).1 hd
+  obtain ⟨inp, hget, rfl⟩ := (mem_srcsOf inputs i s).1 hmem
+  obtain ⟨names, hnames, hrange⟩ := hw i inp hget
+  obtain ⟨hrr, hrmate⟩ := hrange r hrm
+  have hlk := hl i names hnames
+  refine ⟨inp, names, r, hget, hnames, hrm, ?_⟩
+  cases hlinks : linksOf linkFn inputs with
+  | none =>
+    rw [hlinks] at hlk
+    simp only [relink, true_and]
+    constructor
+    · cases hx : r.ref with
+      | none => rfl
+      | some x => exact ⟨x, rfl, hlk x (hrr x hx)⟩
+    · cases hx : r.mate with
+      | none => rfl
+      | some x => exact ⟨x, rfl, hlk x (hrmate x hx)⟩
+  | some l =>
+    rw [hlinks] at hlk
+    simp only [relink, true_and]
+    constructor
+    · cases hx : r.ref with
+      | none => rfl
+      | some x => exact ⟨l i x, rfl, hlk x (hrr x hx)⟩
+    · cases hx : r.mate with
+      | none => rfl
+      | some x => exact ⟨l i x, rfl, hlk x (hrmate x hx)⟩
+
+/-! ### the orders of the declared sort orders -/
+
+/-- sort order queryname merges by record name, bytewise -/
+theorem queryname_uses_name_order (i0 : Input) (tl : List Input) (h : i0.so = .queryname) :
+    lessOf custom (i0 :: tl) = some lessByName := by simp [lessOf, chooseLess, h]
+
+/-- sort order coordinate merges by `lessByCoordinate` on the re-linked records … -/
+theorem coordinate_uses_coordinate_order (i0 : Input) (tl : List Input) (h : i0.so = .coordinate) :
+    lessOf custom (i0 :: tl) = some lessByCoordinate := by simp [lessOf, chooseLess, h]
+
+/-- … which is: unplaced records last, then by the index of the reference in the header the records are
+linked to — for the heads of the heap and for the output that is the merged header — then by position -/
+theorem coordinate_order_spec (a b : Rec) :
+    lessByCoordinate a b = true ↔ keyLt (coordKey a) (coordKey b) := lessByCoordinate_iff_key a b
+
+/-- unsorted, and unknown without a less function, concatenate; unknown with a less function uses it -/
+theorem unsorted_concatenates (i0 : Input) (tl : List Input) (h : i0.so = .unsorted) :
+    lessOf custom (i0 :: tl) = none := by simp [lessOf, chooseLess, h]
+
+theorem unknown_uses_custom (i0 : Input) (tl : List Input) (h : i0.so = .unknown) :
+    lessOf custom (i0 :: tl) = custom := by simp [lessOf, chooseLess, h]
+
+theorem name_order_strict_weak : StrictWeak lessByName := lessByName_strictWeak
+
+theorem coordinate_order_strict_weak : StrictWeak lessByCoordinate := lessByCoordinate_strictWeak
+
+/-- the order of the heap (less, then input id) is a strict weak order whenever less is: the
+hypothesis under which container/heap returns a minimal element -/
+theorem heap_order_strict_weak (less : Less) (sw : StrictWeak less) : StrictWeak (heapLess less) :=
+  heapLess_strictWeak less sw
+
+/-- not below by the coordinate key -/
+def KeySorted (l : List Rec) : Prop := l.Pairwise fun a b => ¬ keyLt (coordKey b) (coordKey a)
+
+/-- coordinate order: if every input, re-linked to the merged header, is sorted by (merged reference
+index, position) with unplaced records last, so is the output -/
+theorem merge_sorted_coordinate (i0 : Input) (tl : List Input) (hso : i0.so = .coordinate)
+    (hm : newMerger custom linkFn (i0 :: tl) = .ok m) (hr : m.readAll H = (out, fin))
+    (hs : ∀ i s, (i, s) ∈ srcsOf (i0 :: tl) → KeySorted (s.rest.map (relink (linksOf linkFn (i0 :: tl)) i))) :
+    KeySorted (out.map (·.2)) := by
+  have := merge_sorted H hm hr (coordinate_uses_coordinate_order i0 tl hso) lessByCoordinate_strictWeak ?_
+  · exact this.imp fun {a b} h hk => by
+      rw [(lessByCoordinate_iff_key b a).2 hk] at h; cases h
+  · intro i s hi
+    exact (hs i s hi).imp fun {a b} h => by
+      cases hc : lessByCoordinate b a with
+      | false => rfl
+      | true => exact absurd ((lessByCoordinate_iff_key b a).1 hc) h
+
+/-- an input sorted by its own header's coordinate order is sorted with respect to the merged header
+if its references keep their relative order in the merged header -/
+theorem relinked_sorted_of_monotone (l : LinkFn) (i : Nat) (rs : List Rec)
+    (hmono : ∀ x y, x < y → l i x < l i y) (hs : KeySorted rs) :
+    KeySorted (rs.map (relink (some l) i)) := by
+  unfold KeySorted at *
+  rw [List.pairwise_map]
+  refine hs.imp fun {a b} h hk => h ?_
+  have hinj : ∀ x y, l i x = l i y → x = y := by
+    intro x y hxy
+    rcases Nat.lt_trichotomy x y with hlt | heq | hgt
+    · have := hmono x y hlt; omega
+    · exact heq
+    · have := hmono y x hgt; omega
+  have hrev : ∀ x y, l i x < l i y → x < y := by
+    intro x y hxy
+    rcases Nat.lt_trichotomy x y with hlt | heq | hgt
+    · exact hlt
+    · subst heq; omega
+    · have := hmono y x hgt; omega
+  unfold keyLt coordKey relink at *
+  cases hb : b.ref <;> cases ha : a.ref <;> simp_all
+  rcases hk with hk | ⟨hk, hp⟩
+  · exact Or.inl (hrev _ _ hk)
+  · exact Or.inr ⟨hinj _ _ hk, hp⟩
+
+/-! ### further facts about the code -/
+
+/-- when merging by a strict weak order the output does not depend on the heap implementation: any two
+heaps satisfying the `Heap` laws give the same records in the same order and the same final error
+(the heap order is total on the heads of distinct inputs, so the minimal head is unique) -/
+theorem merge_heap_independent (H1 H2 : Heap) {less : Less} (hm : newMerger custom linkFn inputs = .ok m)
+    (hl : lessOf custom inputs = some less) (sw : StrictWeak less) : m.readAll H1 = m.readAll H2 := by
+  obtain ⟨n1, hn1, hr1⟩ := readAll_sorted H1 hm hl
+  obtain ⟨n2, hn2, hr2⟩ := readAll_sorted H2 hm hl
+  have hnd := (initHeads_ids (linksOf linkFn inputs) (srcsOf inputs)).nodup (srcsOf_nodup inputs)
+  rw [hr1, hr2, drainS_heap_independent H1 H2 _ less sw n1 _ _ _ (List.Perm.refl _) hnd]
+  rcases Nat.le_total n1 n2 with h | h
+  · exact (drainS_mono H2 _ less n1 n2 _ _ hn1 h).symm
+  · exact drainS_mono H2 _ less n2 n1 _ _ hn2 h
+
+/-- complete characterisation of the sorted modes: a list that is sorted by (less, input id), contains
+for every input exactly that input's records in that input's order, and nothing of any other id, IS the
+output — `merge_sorted_ties` and `merge_stable_per_input` leave no freedom -/
+theorem merge_is_the_stable_merge {less : Less} (hm : newMerger custom linkFn inputs = .ok m)
+    (hr : m.readAll H = (out, fin)) (hl : lessOf custom inputs = some less) (sw : StrictWeak less)
+    (hs : ∀ i s, (i, s) ∈ srcsOf inputs → SortedBy less (s.rest.map (relink (linksOf linkFn inputs) i)))
+    (spec : List (Nat × Rec)) (h1 : SortedBy (pairLess less) spec)
+    (h2 : ∀ i s, (i, s) ∈ srcsOf inputs →
+      spec.filter (fun p => p.1 == i) = tagged (linksOf linkFn inputs) i s.rest)
+    (h3 : ∀ p, p ∈ spec → ∃ s, (p.1, s) ∈ srcsOf inputs) : spec = out := by
+  refine sorted_stable_unique less spec out h1 (merge_sorted_ties H hm hr hl sw hs) ?_
+  intro i
+  by_cases hi : ∃ s, (i, s) ∈ srcsOf inputs
+  · obtain ⟨s, hs'⟩ := hi
+    rw [h2 i s hs', (merge_stable_per_input H hm hr i s hs').2 (Or.inl (by simp [hl]))]
+  · have e1 : spec.filter (fun p => p.1 == i) = [] := by
+      rw [List.filter_eq_nil_iff]
+      intro p hp hpi
+      obtain ⟨s, hs'⟩ := h3 p hp
+      exact hi ⟨s, by rw [← (beq_iff_eq.1 hpi)]; exact hs'⟩
+    have e2 : out.filter (fun p => p.1 == i) = [] := by
+      rw [List.filter_eq_nil_iff]
+      intro p hp hpi
+      obtain ⟨j, s, r, hmem, _, rfl⟩ := (mem_delivered _ _ p).1 (merge_nothing_else H hm hr p hp)
+      exact hi ⟨s, by rw [← (beq_iff_eq.1 hpi)]; exact hmem⟩
+    rw [e1, e2]
+
+/-- once Read has returned an error it returns the same error, and no record, on every later call -/
+theorem read_after_final (m m' : Merger) (t : Term) (h : m.read H = (.fin t, m')) :
+    m'.read H = (.fin t, m') := read_fin_again H m m' t h
+
+/-- NewMerger fails with io.EOF exactly when there is no input … -/
+theorem newMerger_fails_without_input :
+    newMerger custom linkFn inputs = .error .noSource ↔ inputs = [] := newMerger_noSource custom linkFn inputs
+
+/-- … and with "sort order mismatch" exactly when some input declares another sort order than the first -/
+theorem newMerger_fails_on_mismatch :
+    newMerger custom linkFn inputs = .error .sortOrderMismatch ↔
+      ∃ i0 tl, inputs = i0 :: tl ∧ ∃ inp, inp ∈ inputs ∧ inp.so ≠ i0.so := newMerger_mismatch custom linkFn inputs
+
+/-- for a strict weak order, sortedness is the same as "no record is below its predecessor" (which is
+what the oracle of the check evaluates on the implementation's output) -/
+theorem sorted_iff_neighbours_sorted {α : Type} (lt : α → α → Bool) (sw : StrictWeak lt) (l : List α) :
+    AdjSorted lt l ↔ SortedBy lt l := adjSorted_iff lt sw l
+
+/-! ### non-vacuity -/
+
+/-- the heap laws are satisfiable: the executable heap -/
+example : Heap := scanHeap
+
+def rA (n : Nat) (ref : Option Nat) (pos : Int) (mate : Option Nat) (uid : Nat) : Rec :=
+  { name := [n], ref := ref, pos := pos, mate := mate, matePos := 0, uid := uid }
+
+/-- two coordinate sorted inputs with headers [z, a] and [a, c] (merged [z, a, c]), the second failing
+after its second record; mates on other references, an unplaced record -/
+def exInputs : List Input :=
+  [ { so := .coordinate, src := { rest := [rA 1 (some 0) 5 (some 1) 0, rA 2 (some 1) 5 none 1, rA 3 none (-1) none 2], term := .eof } },
+    { so := .coordinate, src := { rest := [rA 4 (some 0) 4 (some 1) 0, rA 5 (some 1) 1 (some 0) 1], term := .err 7 } } ]
+
+def exLink : LinkFn := fun i x => if i = 0 then x else x + 1
+
+example : (match newMerger none exLink exInputs with
+    | .ok m => (m.readAll scanHeap).1.map (fun p => (p.1, p.2.uid, p.2.ref, p.2.mate))
+    | .error _ => []) =
+    [(0, 0, some 0, some 1), (1, 0, some 1, some 2), (0, 1, some 1, none), (1, 1, some 2, some 1), (0, 2, none, none)] := by
+  decide
+
+example : (match newMerger none exLink exInputs with
+    | .ok m => (m.readAll scanHeap).2
+    | .error _ => none) = some (.err 7) := by decide
+
+example : LinksOK [[[122], [97]], [[97], [99]]] [[122], [97], [99]] (linksOf exLink exInputs) := by
+  intro i names hn x hx
+  match i, hn with
+  | 0, hn => simp at hn; subst hn; match x, hx with
+    | 0, _ => decide
+    | 1, _ => decide
+  | 1, hn => simp at hn; subst hn; match x, hx with
+    | 0, _ => decide
+    | 1, _ => decide
+  | i + 2, hn => simp at hn
+
+example : ∀ i s, (i, s) ∈ srcsOf exInputs → KeySorted (s.rest.map (relink (linksOf exLink exInputs) i)) := by
+  intro i s h
+  simp [srcsOf, enumFrom, exInputs] at h
+  rcases h with ⟨rfl, rfl⟩ | ⟨rfl, rfl⟩ <;>
+    simp [KeySorted, relink, linksOf, exInputs, exLink, rA, keyLt, coordKey]
+
+example : StrictWeak (fun a b : Rec => decide (a.pos < b.pos)) :=
+  ⟨fun a => by simp, fun a b c => by simp; omega, fun a b c => by simp; omega⟩
+
 end Hts.Props.C18
